@@ -3,7 +3,7 @@
     side conditions of the piece theorems (C01, C12, C13, C16); hence the pool of piece programs of
     a run satisfies the premises of the whole-run invariant of SystemProofs.v. *)
 From TB Require Import Base Decimal BencodeModel BencodeSpec TorrentModel TorrentSpec TorrentProofs LayoutModel LayoutSpec LayoutProofs
-                       PathModel FsModel SolverModel FinderModel RunModel SolverProofs RunProofs FsProofs TableProofs PreludeProofs
+                       PathModel FsModel SolverModel FinderModel RunModel SolverProofs RunProofs FsProofs TableProofs PreludeProofs PresentProofs
                        SystemModel SystemProofs Generated GeneratedObligations.
 From Coq Require Import ZifyN ZifyNat ZifyBool.
 Local Open Scope N_scope.
@@ -235,9 +235,99 @@ Proof.
   exists pc. repeat split; auto. apply solve_prog_good; auto.
 Qed.
 
-(** The model never panics while building the work list of loadable torrents, provided the table
-    holds an entry for every file (it does: see [work_of] on [metadata_table], exercised by the
-    correspondence check); stated here as: it returns [Ok] or [Panic] only through [find_entry]. *)
+(** ** The work list covers every byte (C06 lifted to the work list): every byte of every file of
+    every loaded torrent lies in a segment of some piece of the work list, and that segment is
+    tied to the table entry of that very file. *)
+Lemma torrent_layout_spec t : torrent_ok t ->
+  0 < t_piece_length t \/ total (lens_of t) = 0.
+Proof.
+  intros [HL [(flen & Hl & Hf & Hb & Hh)|(fs & Hl & Hf & Hne & Hh)]]; unfold lens_of, files_of; rewrite Hl, ?Hf;
+    unfold hash_count_ok in Hh.
+  - unfold total; cbn [fold_right]. rewrite N.add_0_r. destruct (N.eqb_spec flen 0); [now right|].
+    destruct (N.eqb_spec (t_piece_length t) 0); [discriminate|left; lia].
+  - change (sumN (map f_length fs)) with (total (map f_length fs)) in Hh.
+    destruct (N.eqb_spec (total (map f_length fs)) 0); [now right|].
+    destruct (N.eqb_spec (t_piece_length t) 0); [discriminate|left; lia].
+Qed.
+
+Lemma segs_of_in ih : forall sgs out sg, segs_of es ih sgs = Ok out -> In sg sgs ->
+  exists s, In s out /\ ps_off s = s_off sg /\ ps_len s = s_len sg /\ find_entry es ih (s_file sg) = Some (ps_entry s).
+Proof.
+  induction sgs as [|x r IH]; intros out sg Hs Hin; [contradiction|]. cbn [segs_of] in Hs.
+  destruct (find_entry es ih (s_file x)) as [e|] eqn:Ef; [|discriminate].
+  destruct (segs_of es ih r) as [rs| | |] eqn:Er; cbn [bind] in Hs; try discriminate. inversion Hs; subst.
+  destruct Hin as [->|Hin].
+  - eexists. split; [now left|]. cbn. auto.
+  - destruct (IH rs sg eq_refl Hin) as (s & H1 & H2). exists s. split; [now right|exact H2].
+Qed.
+
+Lemma work_of_pieces_nth ih : forall ps hashes w, work_of_pieces es ih ps hashes = Ok w -> length hashes = length ps ->
+  forall i p, nth_error ps i = Some p -> exists pc, nth_error w i = Some pc /\ segs_of es ih (p_segs p) = Ok (w_segs pc).
+Proof.
+  induction ps as [|p0 pr IH]; intros hashes w Hw Hl i p Hn; [destruct i; discriminate|].
+  destruct hashes as [|h hr]; [discriminate|]. cbn [work_of_pieces] in Hw.
+  destruct (segs_of es ih (p_segs p0)) as [sg| | |] eqn:Es; cbn [bind] in Hw; try discriminate.
+  destruct (work_of_pieces es ih pr hr) as [rest| | |] eqn:Er; cbn [bind] in Hw; try discriminate. inversion Hw; subst.
+  destruct i as [|i]; cbn [nth_error] in *.
+  - inversion Hn; subst. eexists. split; [reflexivity|]. exact Es.
+  - apply (IH hr rest Er); [cbn [length] in Hl; lia|exact Hn].
+Qed.
+
+Theorem work_covers_every_byte ws t k flen o : work_of es ts = Ok ws -> In t ts ->
+  nth_error (lens_of t) k = Some flen -> o < flen ->
+  exists pc s, In pc ws /\ In s (w_segs pc) /\ e_ih (ps_entry s) = t_info_hash t /\ e_findex (ps_entry s) = k /\
+               ps_off s <= o < ps_off s + ps_len s.
+Proof.
+  intros Hw Ht Hk Ho.
+  assert (G : forall ts', incl ts' ts -> In t ts' -> forall ws', work_of es ts' = Ok ws' ->
+              exists pc s, In pc ws' /\ In s (w_segs pc) /\ e_ih (ps_entry s) = t_info_hash t /\ e_findex (ps_entry s) = k /\ ps_off s <= o < ps_off s + ps_len s).
+  { induction ts' as [|t0 r IH]; intros Hi Hin ws' Hw'; [contradiction|]. cbn [work_of] in Hw'.
+    destruct (layout (shape_of t0) (t_piece_length t0) (length (t_pieces t0))) as [ps| | |] eqn:El; cbn [bind] in Hw'; try discriminate.
+    destruct (work_of_pieces es (t_info_hash t0) ps (t_pieces t0)) as [w| | |] eqn:Ew; cbn [bind] in Hw'; try discriminate.
+    destruct (work_of es r) as [rest| | |] eqn:Er; cbn [bind] in Hw'; try discriminate. inversion Hw'; subst.
+    destruct Hin as [->|Hin].
+    2: { destruct (IH (fun x Hx => Hi x (or_intror Hx)) Hin rest eq_refl) as (pc & s & H1 & H2). exists pc, s. split; [apply in_or_app; now right|exact H2]. }
+    pose proof (proj1 (Forall_forall _ _) Hts t Ht) as Hok.
+    (* the layout of t in closed form *)
+    assert (Hlay : exists L files nh, L = t_piece_length t /\ files = lens_of t /\ nh = length (t_pieces t) /\ 0 < L /\ hashes_ok files L nh /\
+                   length ps = nh /\ forall i p, nth_error ps i = Some p -> pos_segs (p_segs p) = spec_piece files L i).
+    { exists (t_piece_length t), (lens_of t), (length (t_pieces t)).
+      assert (Hpos : 0 < t_piece_length t).
+      { destruct (torrent_layout_spec t Hok) as [Hp|Hz]; [exact Hp|]. exfalso.
+        assert (flen <= total (lens_of t)).
+        { clear -Hk. revert k Hk. induction (lens_of t) as [|x l IHl]; intros [|k] Hk; cbn in Hk; try discriminate.
+          - inversion Hk; subst. unfold total; cbn [fold_right]. lia.
+          - specialize (IHl k Hk). unfold total in *; cbn [fold_right]. lia. }
+        lia. }
+      destruct Hok as [HL [(fl & Hl & Hf & Hb & Hh)|(fs & Hl & Hf & Hne & Hh)]]; unfold shape_of, lens_of, files_of in *; rewrite Hl, ?Hf in *.
+      - assert (Hk' : hashes_ok [fl] (t_piece_length t) (length (t_pieces t))).
+        { apply hash_count_ok_iff. unfold total; cbn [fold_right]. rewrite N.add_0_r. exact Hh. }
+        destruct (layout_single_spec fl _ _ Hb Hk') as (ps' & Hlay' & Hlen & Hall). cbn [layout] in El. rewrite El in Hlay'. inversion Hlay'; subst ps'.
+        split; [reflexivity|]. split; [reflexivity|]. split; [reflexivity|]. split; [exact Hpos|]. split; [exact Hk'|]. split; [exact Hlen|].
+        intros i p Hp. destruct (Hall i p Hp) as [_ [Hs _]]. exact Hs.
+      - assert (Hk' : hashes_ok (map f_length fs) (t_piece_length t) (length (t_pieces t))) by (apply hash_count_ok_iff; exact Hh).
+        assert (Hne' : map f_length fs <> []) by (destruct fs; [congruence|discriminate]).
+        destruct (layout_multi_spec _ _ _ Hne' HL Hk') as (ps' & Hlay' & Hlen & Hall). cbn [layout] in El. rewrite El in Hlay'. inversion Hlay'; subst ps'.
+        split; [reflexivity|]. split; [reflexivity|]. split; [reflexivity|]. split; [exact Hpos|]. split; [exact Hk'|]. split; [exact Hlen|].
+        intros i p Hp. destruct (Hall i p Hp) as [Hs _]. exact Hs. }
+    destruct Hlay as (L & files & nh & -> & -> & -> & Hpos & Hh & Hlen & Hspec).
+    destruct (spec_covers (lens_of t) (t_piece_length t) k flen o Hpos Hk Ho) as (sg & Hsg & Hcf & Hco).
+    set (g := start_of (lens_of t) k + o) in *. set (i := N.to_nat (g / t_piece_length t)) in *.
+    assert (Hg : g < total (lens_of t)).
+    { subst g. unfold start_of. rewrite <- (firstn_skipn k (lens_of t)) at 2. rewrite total_app.
+      rewrite (skipn_nth _ _ _ Hk), total_cons. lia. }
+    assert (Hi' : (i < length (t_pieces t))%nat).
+    { destruct Hh as [H1 _]. subst i. pose proof (N.div_mod g (t_piece_length t) ltac:(lia)). pose proof (N.mod_lt g (t_piece_length t) ltac:(lia)). nia. }
+    destruct (nth_error ps i) as [p|] eqn:Ep; [|apply nth_error_None in Ep; lia].
+    assert (Hinp : In sg (p_segs p)).
+    { rewrite <- (Hspec i p Ep) in Hsg. unfold pos_segs in Hsg. apply filter_In in Hsg. tauto. }
+    destruct (work_of_pieces_nth _ ps (t_pieces t) w Ew ltac:(lia) i p Ep) as (pc & Hpc & Hsegs).
+    destruct (segs_of_in _ _ _ sg Hsegs Hinp) as (s & Hs1 & Hs2 & Hs3 & Hs4).
+    destruct (find_entry_some _ _ _ Hs4) as (_ & Hih & Hfi).
+    exists pc, s. split; [apply in_or_app; left; eapply nth_error_In; eauto|]. split; [exact Hs1|]. split; [exact Hih|].
+    split; [congruence|]. rewrite Hs2, Hs3. exact Hco. }
+  apply (G ts (incl_refl _) Ht ws Hw).
+Qed.
 End Glue.
 
 (** ** The scanning phase of a run of loadable torrents
@@ -390,4 +480,22 @@ Proof.
   { apply (SI_apply_setlens content es fi applied Happ). now apply SI_init. }
   apply (sys_invariant content es fi Hf _ _ Hr HS0).
   exact (work_pool_good export ts ix es Hts Hnd Hpop content Hc H ws pool0 Hw Hcr Hp).
+Qed.
+
+
+(** ** From the command line to [run_setup]: the torrent list the run works on
+    [loaded H xs]: the documents that load, in the order given; [distinct_torrents] sorts them by
+    info-hash and drops repetitions (orchestrator.rs).  The result satisfies the first two premises
+    of [run_setup], whatever was presented (duplicates, any order, unloadable documents). *)
+Definition loaded (H : list N -> list N) (xs : list (list N)) : list torrent :=
+  flat_map (fun x => match load H x with Ok t => [t] | _ => [] end) xs.
+
+Theorem presented_list_ok H xs : Forall (fun x => len x <= u64max) xs ->
+  Forall torrent_ok (distinct_torrents (loaded H xs)) /\ NoDup (map t_info_hash (distinct_torrents (loaded H xs))).
+Proof.
+  intros Hx. split; [|apply distinct_nodup].
+  apply Forall_forall. intros t Ht. destruct (distinct_spec (loaded H xs)) as (_ & Hsub & _). apply Hsub in Ht.
+  unfold loaded in Ht. apply in_flat_map in Ht. destruct Ht as (x & Hin & Hl).
+  destruct (load H x) as [t'| | |] eqn:El; try contradiction. destruct Hl as [<-|[]].
+  rewrite Forall_forall in Hx. exact (load_torrent_ok H x t' (Hx x Hin) El).
 Qed.
